@@ -154,6 +154,15 @@ func RunTrace(prop, root string, ops []string) int {
 				fmt.Printf("   mtp %s#%d %s coll=%s liab=%s custody=%s intPaid=%s intUnpaid=%s fundPaid=%s fundRecv=%s health=%s\n", m.Address[len(m.Address)-6:], m.Id, m.Position, m.Collateral, m.Liabilities, m.Custody, m.BorrowInterestPaidCustody, m.BorrowInterestUnpaidLiability, m.FundingFeePaidCustody, m.FundingFeeReceivedCustody, m.MtpHealth)
 			}
 		}
+		if os.Getenv("VERIF_DUMP_LLP") != "" && br.OK() {
+			ctx := w.RCtx()
+			pool, _ := w.App.AmmKeeper.GetPool(ctx, 1)
+			lp, _ := pool.LpTokenPrice(ctx, w.App.OracleKeeper, w.App.AccountedPoolKeeper)
+			fmt.Printf("   lp price=%s total shares=%s\n", lp, pool.TotalShares.Amount)
+			for _, ps := range w.App.LeveragelpKeeper.GetAllPositions(ctx) {
+				fmt.Printf("   llp %s#%d lpAmount=%s coll=%s liab=%s stop=%s health=%s\n", ps.Address[len(ps.Address)-6:], ps.Id, ps.LeveragedLpAmount, ps.Collateral, ps.Liabilities, ps.StopLossPrice, ps.PositionHealth)
+			}
+		}
 		if os.Getenv("VERIF_DUMP_C13") != "" && br.OK() {
 			ctx := w.RCtx()
 			for d, tot := range pendingRewards(w, ctx) {
